@@ -58,14 +58,60 @@ def collect_terms(fs, terms, gcache):
             elif k in (z3.Z3_OP_EQ, z3.Z3_OP_DISTINCT):
                 cand = [c for c in ch if c.sort().kind() in (z3.Z3_SEQ_SORT, z3.Z3_DATATYPE_SORT) or
                         (z3.is_const(c) and c.decl().kind() == z3.Z3_OP_UNINTERPRETED)]
-            for c in cand:
+            for ci, c in enumerate(cand):
                 if c.sort().kind() == z3.Z3_BOOL_SORT:
                     continue
                 if c.sort().kind() == z3.Z3_ARRAY_SORT and k != z3.Z3_OP_UNINTERPRETED:
                     continue
                 if _is_ground(c, gcache):
                     terms.setdefault(str(c.sort()), {})[c.get_id()] = c
+                    if k in (z3.Z3_OP_SELECT, z3.Z3_OP_STORE):
+                        terms.setdefault(_pos_class(ch[0]), {})[c.get_id()] = c
+                    elif k == z3.Z3_OP_UNINTERPRETED:
+                        terms.setdefault("uf:%s:%d" % (t.decl().name().split("!")[0], ci), {})[c.get_id()] = c
             todo.extend(ch)
+
+
+def _pos_class(arr):
+    """position class of an array index: heap arrays (indexed by reference) vs inner arrays (list elements /
+    dictionary keys), by sort"""
+    srt = arr.sort()
+    kind = "heap" if srt.range().kind() == z3.Z3_ARRAY_SORT else "inner"
+    return "%s:%s" % (kind, srt)
+
+
+def var_classes(body, nvars):
+    """for each bound variable of a quantifier (index 0..nvars-1 in var order) the position classes in which it
+    occurs directly as an array index / function argument"""
+    out = [set() for _ in range(nvars)]
+    seen = set()
+
+    def rec(t, shift):
+        key = (t.get_id(), shift)
+        if key in seen:
+            return
+        seen.add(key)
+        if z3.is_quantifier(t):
+            rec(t.body(), shift + t.num_vars())
+            return
+        if not z3.is_app(t):
+            return
+        k = t.decl().kind()
+        ch = t.children()
+        cand = []
+        if k in (z3.Z3_OP_SELECT, z3.Z3_OP_STORE):
+            cand = [(c, _pos_class(ch[0])) for c in (ch[1:] if k == z3.Z3_OP_SELECT else ch[1:-1])]
+        elif k == z3.Z3_OP_UNINTERPRETED and ch:
+            cand = [(c, "uf:%s:%d" % (t.decl().name().split("!")[0], i)) for i, c in enumerate(ch)]
+        for c, cls in cand:
+            if z3.is_var(c):
+                idx = z3.get_var_index(c) - shift
+                if 0 <= idx < nvars:
+                    out[nvars - 1 - idx].add(cls)
+        for c in ch:
+            rec(c, shift)
+    rec(body, 0)
+    return out
 
 
 class Inst:
@@ -74,6 +120,9 @@ class Inst:
         self.n = itertools.count()
         self.leftover = False
         self.budget = 6000  # total number of instances generated
+        self.dropped = 0
+        self.keep_wide = False
+        self.vclass_cache = {}
 
     def fresh(self, sort, base, register=True):
         c = z3.Const("sk!%s!%d" % (base, next(self.n)), sort)
@@ -97,13 +146,26 @@ class Inst:
                 consts = [self.fresh(sorts[i], f.var_name(i).split("!")[0], register=skolem_only or not env)
                           for i in range(n)]
                 return self.tr(f.body(), pos, skolem_only, tuple(reversed(consts)) + tuple(env))
-            if skolem_only or n > MAX_VARS or self.budget <= 0:
-                if not skolem_only:
-                    self.leftover = True
+            if skolem_only:
                 return z3.substitute_vars(f, *env) if env else f
+            if n > MAX_VARS or self.budget <= 0:
+                self.leftover = True
+                self.dropped += 1
+                if self.keep_wide and n > MAX_VARS:
+                    return z3.substitute_vars(f, *env) if env else f
+                return z3.BoolVal(pos)  # drop the hypothesis: sound for 'unsat', weaker candidate for 'sat' 
             pools = []
-            for s in sorts:
-                p = list(self.terms.get(str(s), {}).values())
+            vcls = self.vclass_cache.get(f.get_id())
+            if vcls is None:
+                vcls = var_classes(f.body(), n)
+                self.vclass_cache[f.get_id()] = vcls
+            for vi, s in enumerate(sorts):
+                p = {}
+                for cls in vcls[vi]:
+                    p.update(self.terms.get(cls, {}))
+                if not vcls[vi]:
+                    p = dict(self.terms.get(str(s), {}))
+                p = list(p.values())
                 if not p:
                     p = [self.fresh(s, "w")]
                 pools.append(p)
@@ -186,12 +248,20 @@ def bounded_check(hyps, goal, timeout_ms=20000, rounds=2):
         if sum(len(v) for v in terms.values()) == before:
             break
     s = z3.Solver()
-    s.set("timeout", timeout_ms)
+    s.set("timeout", min(timeout_ms, 4000))
     s.add(*out)
     r = s.check()
-    info = {"terms": {k: len(v) for k, v in terms.items()}, "leftover": inst.leftover}
+    info = {"terms": {k: len(v) for k, v in terms.items() if ":" not in k}, "leftover": inst.leftover,
+            "dropped": inst.dropped, "qf_backend": "z3"}
     if r == z3.unsat:
         return "unsat", None, info
     if r == z3.sat:
         return "sat", s.model(), info
+    # the instantiated formula is quantifier-free: cvc5 decides many string/array/datatype instances z3 does not
+    if not inst.leftover or inst.dropped:
+        from .engine import run_cvc5
+        c = run_cvc5(s.to_smt2(), max(5, timeout_ms // 1000))
+        info["qf_backend"] = "cvc5-1.0.3"
+        if c in ("sat", "unsat"):
+            return c, None, info
     return "unknown", None, info
